@@ -1,7 +1,7 @@
 (* Executable model of the $ref expander and resolver (expander.go, schema_loader.go, resolver.go),
    working on JSON trees.  What is transcribed as it is: base-path threading, the parent stack and
    the shared memo of circular refs, the choice of root document per resolver (including the
-   string-prefix test of transitiveResolver), deref chains that keep the first resolver, the rebasing
+   string-prefix test of transitiveResolver), deref chains (each hop continues in the document it landed in), the rebasing
    of kept refs, SkipSchemas / ContinueOnError / AbsoluteCircularRef, the document cache and the
    loader log, the pass through the typed decoding (norm) of every resolved target.
    What is abstracted (DESIGN.md section 4, C02): (a) sub-schemas are visited in the order of the
@@ -258,13 +258,6 @@ Definition transitive (s : st) (rroot : option string) (base ref : string) : ere
         else let doc := strip_frag cur in
              Done ((match assoc doc (cache s) with Some _ => Some doc | None => None end), true)))).
 
-(* resolver and base after a (dereferenced) holder that still carries the text [ref] *)
-Definition after_deref (s : st) (rroot : option string) (base ref : string) : eres (option string * string) :=
-  if String.eqb ref "" then Done (rroot, base)
-  else ebind (transitive s rroot base ref) (fun rc =>
-         if snd rc then pbind s (nuri ref base) (fun cur => Done (fst rc, strip_frag cur))
-         else Done (fst rc, base)).
-
 Section Walk.
 (* following a reference: expandSchema on a resolved target (not a sub-term of the input) *)
 Variable follow : st -> list string -> option string -> string -> json -> eres (st * json).
@@ -324,29 +317,31 @@ Fixpoint walk (j : json) (s : st) (parents : list string) (rroot : option string
   | _ => Done (s, j)
   end.
 
-(* deref: follow a chain of parameter / response / path-item references.  The resolver (its root)
-   stays the one of the first hop; only the base moves.  Returns the holder after dereferencing and
-   the ref text left on it. *)
+(* deref: follow a chain of parameter / response / path-item references.  Every hop continues with the resolver and
+   the base of the document it landed in (transitiveResolver / updateBasePath).  Returns the holder after dereferencing
+   — a `$ref` member is left on it only when the chain was cut as circular — and the resolver root and base to go on with. *)
 Fixpoint deref (fuel : nat) (s : st) (parents : list string) (rroot : option string) (base kind : string)
-         (m : list (string * json)) : eres (st * list (string * json) * string) :=
+         (m : list (string * json)) : eres (st * list (string * json) * option string * string) :=
   let cur := get_str "$ref" m in
-  if String.eqb cur "" then Done (s, m, "")
+  if String.eqb cur "" then Done (s, m, rroot, base)
   else match fuel with
        | O => OOF
        | S f =>
            pbind s (nuri cur base) (fun nref =>
              let '(s1, circ) := is_circular s nref parents in
-             if circ then Done (s1, m, cur)
+             if circ then Done (s1, m, rroot, base)
              else
+               (* the holder's own reference is cleared before the target is decoded into it *)
+               let m0 := remove_key "$ref" m in
+               let continue_with (s2 : st) (holder : list (string * json)) :=
+                 ebind (transitive s2 rroot base cur) (fun rc =>
+                   deref f s2 (parents ++ [nref])%list (fst rc) (if snd rc then strip_frag nref else base) kind holder) in
                match resolve s1 rroot cur base kind with
                | Done (s2, JObj t) =>
-                   (* json.Unmarshal into the existing holder: the target's members win, the old "$ref" stays unless overwritten *)
-                   let merged := fold_left (fun acc kv => set_member (fst kv) (snd kv) acc) t m in
-                   let nxt := get_str "$ref" merged in
-                   if String.eqb nxt "" || String.eqb nxt cur then Done (s2, merged, nxt)
-                   else deref f s2 (parents ++ [nref])%list rroot (strip_frag nref) kind merged
+                   (* json.Unmarshal into the existing holder: the target's members win *)
+                   continue_with s2 (fold_left (fun acc kv => set_member (fst kv) (snd kv) acc) t m0)
                | Done (s2, _) => Failed s2
-               | Failed sf => if o_cont OP then Done (sf, m, cur) else Failed sf
+               | Failed sf => if o_cont OP then continue_with sf m0 else Failed sf
                | OOF => OOF
                | Unsup => Unsup
                end)
@@ -357,25 +352,13 @@ Definition expand_por (fuel : nat) (s : st) (rroot : option string) (base kind :
   match j with
   | JObj m =>
       ebind (deref fuel s [] rroot base kind m) (fun r1 =>
-        let '(s1, m1, ref) := r1 in
-        ebind (after_deref s1 rroot base ref) (fun rb =>
-          let '(rroot1, base1) := rb in
-          let m2 := remove_key "$ref" m1 in
-          match assoc "schema" m2 with
-          | Some (JObj sm) =>
-              (* a schema ref already known to be circular is rewritten here, then seen again by expandSchema *)
-              let sref := get_str "$ref" sm in
-              let pre : eres (st * list (string * json)) :=
-                if String.eqb sref "" then Done (s1, sm)
-                else pbind s1 (nuri sref base1) (fun reb =>
-                       let '(s1', circ) := is_circular s1 reb [] in
-                       if circ then pbind s1' (render_kept s1' reb) (fun txt => Done (s1', set_member "$ref" (JStr txt) sm))
-                       else Done (s1', sm)) in
-              ebind pre (fun p =>
-                ebind (follow (fst p) [] rroot1 base1 (JObj (snd p))) (fun r3 =>
-                  Done (fst r3, JObj (set_member "schema" (snd r3) m2))))
-          | _ => Done (s1, JObj m2)
-          end))
+        let '(s1, m1, rroot1, base1) := r1 in
+        let m2 := remove_key "$ref" m1 in
+        match assoc "schema" m2 with
+        | Some (JObj sm) =>
+            ebind (follow s1 [] rroot1 base1 (JObj sm)) (fun r3 => Done (fst r3, JObj (set_member "schema" (snd r3) m2)))
+        | _ => Done (s1, JObj m2)
+        end)
   | _ => Done (s, j)
   end.
 
@@ -419,9 +402,7 @@ Definition expand_path_item (fuel : nat) (s : st) (rroot : option string) (base 
   match j with
   | JObj m =>
       ebind (deref fuel s [] rroot base "PathItem" m) (fun r1 =>
-        let '(s1, m1, ref) := r1 in
-        ebind (after_deref s1 rroot base ref) (fun rb =>
-          let '(rroot1, base1) := rb in
+        let '(s1, m1, rroot1, base1) := r1 in
           let m2 := remove_key "$ref" m1 in
           let step1 : eres (st * list (string * json)) :=
             match assoc "parameters" m2 with
@@ -434,7 +415,7 @@ Definition expand_path_item (fuel : nat) (s : st) (rroot : option string) (base 
                          | Some o => ebind (expand_operation fuel (fst sm) rroot1 base1 o) (fun so => Done (fst so, set_member op (snd so) (snd sm)))
                          | None => Done sm
                          end)) op_names step1 in
-          ebind ops (fun sm => Done (fst sm, JObj (snd sm)))))
+          ebind ops (fun sm => Done (fst sm, JObj (snd sm))))
   | _ => Done (s, j)
   end.
 
